@@ -311,6 +311,13 @@ func hello(k vKey, target string) []byte {
 	return buf.Bytes()
 }
 
+// reuseAddr: a local port that another process left in TIME_WAIT may be bound (this process never uses a port twice)
+func reuseAddr(network, address string, c syscall.RawConn) error {
+	var serr error
+	c.Control(func(fd uintptr) { serr = syscall.SetsockoptInt(int(fd), syscall.SOL_SOCKET, syscall.SO_REUSEADDR, 1) })
+	return serr
+}
+
 func (d *drv) dial(addr string) (net.Conn, error) {
 	var err error
 	for i := 0; i < 200; i++ {
@@ -318,7 +325,10 @@ func (d *drv) dial(addr string) (net.Conn, error) {
 		if d.nextPort > 60000 {
 			d.nextPort = 33000
 		}
-		dl := net.Dialer{Timeout: 4 * time.Second, LocalAddr: &net.TCPAddr{IP: net.ParseIP(clientIP), Port: d.nextPort}}
+		if i%25 == 24 {
+			d.nextPort = 33000 + (d.nextPort-33000+3571)%27000 // a whole run of ports is taken: move to another region
+		}
+		dl := net.Dialer{Timeout: 4 * time.Second, LocalAddr: &net.TCPAddr{IP: net.ParseIP(clientIP), Port: d.nextPort}, Control: reuseAddr}
 		var c net.Conn
 		c, err = dl.Dial("tcp", addr)
 		if err == nil {
